@@ -318,6 +318,64 @@ def check_inplace(job, case):
             "k1_example": None, "cls": msgs[0].split(":")[0] if msgs else None, "case": {"inplace": events}}
 
 
+D_ = "#[[[\n# Doc marker {m}.\n#\n# Second line.\n#]]\n"
+RAW_MODULES = {
+    # declarations that never get an implementing definition (pure virtual members), before documented members
+    "virtual_members": ("cpp_class(Shape)\n  cpp_member(area Shape)\n  cpp_virtual_member(area)\n  cpp_member(perimeter Shape int)\n"
+                        "  cpp_virtual_member(perimeter)\n" + D_.format(m="describe-1") +
+                        "  cpp_member(describe Shape str)\n  function(\"${describe}\" self prefix)\n  endfunction()\n" + D_.format(m="ctor-2") +
+                        "  cpp_constructor(CTOR Shape int)\n  function(\"${CTOR}\" self sides)\n  endfunction()\ncpp_end_class()\n"),
+    "test_without_body": ("ct_add_test(NAME declared_only)\n" + D_.format(m="fn-1") + "function(plain_fn a)\nendfunction()\n"
+                          "ct_add_test(NAME with_body)\nfunction(${with_body})\n  ct_add_section(NAME sec_declared_only)\n" + D_.format(m="mac-2") +
+                          "  macro(helper_mac x)\n  endmacro()\nendfunction()\n"),
+}
+
+
+def check_raw(job, case):
+    """modules given as text (shapes the event alphabet cannot spell): every doccomment-carrying entry is rendered the same
+    under every single-flag deviation (classes left on: a hidden class hides its members by design) as under the defaults"""
+    name = job
+    text = RAW_MODULES[name]
+    path = pipeline.write_tmp(text, f"raw-{name}.cmake")
+    from cminx.documenter import Documenter
+
+    def entries(cfg):
+        with common.quiet():
+            page = Documenter(path, "Title", "mod", modsearch.settings_of(cfg)).process().to_text()
+        return index_page(page)[0]
+    msgs = []
+    try:
+        base = entries(dict.fromkeys(FLAGS, True))
+        if not base:
+            msgs.append("error: no documented entry found in the default page")
+        for cfg in single_configs():
+            if not cfg["include_undocumented_cpp_class"]:
+                continue
+            got = entries(cfg)
+            for mk, r in base.items():
+                if got.get(mk) != r:
+                    off = sorted(f[len("include_undocumented_"):] for f, v in cfg.items() if not v)
+                    msgs.append(f"documented-altered: entry with marker {mk} of module '{name}' differs from its default rendering: "
+                                f"{[x[0][1] for x in got.get(mk, [])]} vs {[x[0][1] for x in r]}   [off: {off}]")
+                    break
+            if msgs:
+                break
+    except Exception as e:  # noqa
+        msgs.append(f"error: pipeline failed: {type(e).__name__}: {e}")
+    return {"viol": msgs[:2], "obs": common.digest([name, msgs]), "nt": common.digest(name), "n": len(FLAGS) + 1, "known": 0, "ndig": 1,
+            "k1_example": None, "cls": msgs[0].split(":")[0] if msgs else None, "case": {"raw": name}}
+
+
+KW_MODULES = [     # an undocumented definition inside a documented one, before the outer body's cmake_parse_arguments call
+    [{"k": "function", "doc": 1, "params": ["p"]}, {"k": "macro", "doc": 0, "params": []}, {"k": "close"}, {"k": "cmake_parse_arguments"}],
+    [{"k": "function", "doc": 1, "params": ["p"]}, {"k": "function", "doc": 0, "params": ["q"]}, {"k": "close"}, {"k": "cmake_parse_arguments"}],
+    [{"k": "macro", "doc": 1, "params": []}, {"k": "macro", "doc": 0, "params": []}, {"k": "close"}, {"k": "cmake_parse_arguments"}],
+    [{"k": "macro", "doc": 1, "params": []}, {"k": "function", "doc": 0, "params": ["q"]}, {"k": "cmake_parse_arguments"}, {"k": "close"},
+     {"k": "cmake_parse_arguments"}],
+    [{"k": "function", "doc": 1, "params": ["p"]}, {"k": "ct_add_test", "doc": 0}, {"k": "close"}, {"k": "cmake_parse_arguments"}],
+]
+
+
 CLI_MODULE = [
     {"k": "function", "doc": 0, "params": ["p"]}, {"k": "close"}, {"k": "macro", "doc": 0, "params": []}, {"k": "close"},
     {"k": "cpp_class", "doc": 0}, {"k": "cpp_attr", "doc": 0, "default": "v"},
@@ -403,6 +461,10 @@ def run(ctx):
            ([der, {"k": "close"}, base_k], "all")]
     jobs += fam
     results += ctx.sweep(functools.partial(check_module, case=case), fam, space="derived classes x all 2^10 configurations", chunk=1, selftest=1)
+    kw = [(m, "reduced") for m in KW_MODULES]
+    jobs += kw
+    results += ctx.sweep(functools.partial(check_module, case=case), kw, space="undocumented definitions inside documented ones", chunk=1, selftest=1)
+    ctx.sweep(functools.partial(check_raw, case=case), list(RAW_MODULES), space="modules given as text", chunk=1, selftest=1)
     # no doccomment in column 0: short modules again, every line indented, single-flag deviations (incl. all off)
     ind = [(h, "single", "indented") for h in hs if len(h) <= 2]
     jobs += ind
@@ -431,6 +493,8 @@ def run(ctx):
 
 
 def replay(case):
+    if isinstance(case, dict) and "raw" in case:
+        return check_raw(case["raw"], "lower")["viol"]
     if isinstance(case, dict) and "inplace" in case:
         return common.in_fork(check_inplace, case["inplace"], "lower")["viol"]
     if isinstance(case, list) and len(case) > 2 and case[2] == "indented":
